@@ -11,6 +11,7 @@
 #include <unistd.h>
 #include <dlfcn.h>
 #include "verif.h"
+#include <regex>
 static FILE* in = nullptr;
 static uint64_t next_val(int bits, const char* name)
 {
@@ -29,7 +30,20 @@ uint32_t verif_range_u32(uint32_t lo, uint32_t hi, const char* n) { uint32_t v =
 uint64_t verif_range_u64(uint64_t lo, uint64_t hi, const char* n) { uint64_t v = next_val(64, n); if (v < lo || v > hi) { printf("ASSUME-FALSE\n"); fflush(stdout); _exit(77); } return v; }
 void verif_bytes(void* p, size_t n, const char* name) { for (size_t i = 0; i < n; i++) ((uint8_t*)p)[i] = (uint8_t)next_val(8, name); }
 void verif_assume(int c) { if (!c) { printf("ASSUME-FALSE\n"); fflush(stdout); _exit(77); } }
-void verif_assert(int c, const char* msg) { if (!c) { printf("VERIF-ASSERT-FAILED %s\n", msg); fflush(stdout); _exit(99); } }
+static bool assert_counts(const char* msg)
+{
+    // VERIF_ASSERT_FILTER: the assertions of the property being checked (a regular expression searched in the message); assertions of a shared
+    // harness body that belong to another property are reported but do not end the run - exactly what the symbolic run does
+    const char* f = getenv("VERIF_ASSERT_FILTER");
+    if (!f || !*f) return true;
+    try { return std::regex_search(msg, std::regex(f)); } catch (...) { return true; }
+}
+void verif_assert(int c, const char* msg)
+{
+    if (c) return;
+    if (!assert_counts(msg)) { printf("VERIF-ASSERT-SKIPPED %s\n", msg); return; }
+    printf("VERIF-ASSERT-FAILED %s\n", msg); fflush(stdout); _exit(99);
+}
 void verif_reach(const char* name) { printf("REACH %s\n", name); }
 void verif_note(const char* name, uint64_t v) { printf("NOTE %s %llu\n", name, (unsigned long long)v); }
 void verif_hook(const char*) {}
@@ -46,7 +60,7 @@ static uint64_t param(const char* name)
         if (s.compare(pos, key.size(), key) == 0) return strtoull(s.c_str() + pos + key.size(), nullptr, 10);
         pos = e + 1;
     }
-    if (!strcmp(name, "xd")) return 0;      // optional run parameter (default keeps the earlier behaviour)
+    if (!strcmp(name, "xd") || !strcmp(name, "peek")) return 0;      // optional run parameters (default keeps the earlier behaviour)
     printf("MISSING-PARAM %s\n", name); _exit(78);
 }
 uint64_t verif_len() { return param("len"); }
